@@ -9,7 +9,12 @@ from .e5 import _v
 
 NT = collections.namedtuple('NT', 'p q')
 
-SCALARS = [2.5, 2.45, 2.55, 2.54, 1.234, 12.0, -0.05, float('inf'), 3, True, None, 'ab', b'ab', 'a.b']
+import fractions
+import decimal
+# exact floats are rounded; every other number type (ints, bools, Fractions, Decimals, complex) is non-float data
+SCALARS = [2.5, 2.45, 2.55, 2.54, 1.234, 12.0, -0.05, float('inf'), 3, True, None, 'ab', b'ab', 'a.b',
+           fractions.Fraction(1, 3), fractions.Fraction(3, 10), fractions.Fraction(31, 2), decimal.Decimal('2.45'), decimal.Decimal('2.54'),
+           2.45 + 0j, 2.54 + 0j]
 ELEMS = [(2.45, 'ab'), (2.54, 'ab'), (2.55, 3), (1.234, 1.2), (3, True), (12.0, None)]
 
 
